@@ -5,6 +5,7 @@ import (
 	"go/ast"
 	"go/token"
 	"go/types"
+	"regexp"
 	"sort"
 	"strings"
 
@@ -591,14 +592,37 @@ func runMarkExhaustive(c *core.Ctx) {
 				}
 				consumes := func(body ast.Node, v string) bool {
 					used := false
+					// locals that hold (a part of) the element: dig := v.Digest
+					alias := map[string]bool{}
+					ast.Inspect(body, func(m ast.Node) bool {
+						if y, ok := m.(*ast.AssignStmt); ok && y.Tok == token.DEFINE && len(y.Lhs) == 1 && len(y.Rhs) == 1 {
+							if rs := exprString(y.Rhs[0]); rs == v || strings.HasPrefix(rs, v+".") {
+								alias[exprString(y.Lhs[0])] = true
+							}
+						}
+						return true
+					})
+					mentions := func(e string) bool {
+						names := []string{v}
+						for a := range alias {
+							names = append(names, a)
+						}
+						for _, nm := range names {
+							// the name as a whole operand, not as part of a longer identifier or selector chain
+							if regexp.MustCompile(`(^|[^A-Za-z0-9_.])` + regexp.QuoteMeta(nm) + `($|[^A-Za-z0-9_])`).MatchString(e) {
+								return true
+							}
+						}
+						return false
+					}
 					ast.Inspect(body, func(m ast.Node) bool {
 						switch y := m.(type) {
 						case *ast.AssignStmt:
-							if _, k, ok := mapAssignTrue(y); ok && strings.HasPrefix(k, v+".") {
+							if _, k, ok := mapAssignTrue(y); ok && mentions(k) {
 								used = true
 							}
 							if len(y.Lhs) == 1 && exprString(y.Lhs[0]) == mark.w {
-								if strings.Contains(exprString(y.Rhs[0]), v) {
+								if mentions(exprString(y.Rhs[0])) {
 									used = true
 								}
 							}
@@ -609,10 +633,53 @@ func runMarkExhaustive(c *core.Ctx) {
 				}
 				switch x := n.(type) {
 				case *ast.RangeStmt:
-					if many && isField(x.X) && x.Value != nil {
-						if consumes(x.Body, exprString(x.Value)) {
+					if many && isField(x.X) {
+						if x.Value != nil && exprString(x.Value) != "_" && consumes(x.Body, exprString(x.Value)) {
 							covered = true
 						}
+						// index form: for i := range X.f { … X.f[i] … }
+						if x.Key != nil && exprString(x.Key) != "_" && consumes(x.Body, exprString(x.X)+"["+exprString(x.Key)+"]") {
+							covered = true
+						}
+					}
+				case *ast.ForStmt:
+					// for i := 0; i < len(X.f); i++ { … X.f[i] … }
+					if !many || x.Init == nil || x.Cond == nil || x.Post == nil {
+						break
+					}
+					init, ok1 := x.Init.(*ast.AssignStmt)
+					cond, ok2 := x.Cond.(*ast.BinaryExpr)
+					post, ok3 := x.Post.(*ast.IncDecStmt)
+					if !ok1 || !ok2 || !ok3 || len(init.Lhs) != 1 || len(init.Rhs) != 1 || exprString(init.Rhs[0]) != "0" || post.Tok != token.INC || cond.Op != token.LSS {
+						break
+					}
+					iv := exprString(init.Lhs[0])
+					if exprString(cond.X) != iv || exprString(post.X) != iv {
+						break
+					}
+					lc, ok := cond.Y.(*ast.CallExpr)
+					if !ok || exprString(lc.Fun) != "len" || len(lc.Args) != 1 || !isField(lc.Args[0]) {
+						break
+					}
+					// the counter is not otherwise assigned in the body
+					reassigned := false
+					ast.Inspect(x.Body, func(m ast.Node) bool {
+						switch y := m.(type) {
+						case *ast.AssignStmt:
+							for _, l := range y.Lhs {
+								if exprString(l) == iv {
+									reassigned = true
+								}
+							}
+						case *ast.IncDecStmt:
+							if exprString(y.X) == iv {
+								reassigned = true
+							}
+						}
+						return true
+					})
+					if !reassigned && consumes(x.Body, exprString(lc.Args[0])+"["+iv+"]") {
+						covered = true
 					}
 				case *ast.AssignStmt:
 					if !many {
